@@ -9,8 +9,9 @@
    successful exchange ([C12_isodep_result_sound] re-establishes it), so the theorems apply to every
    exchange of a session up to and including the first one that fails.  What happens after a failed
    exchange is the known finding witnessed by [C12_after_failed_exchange_refuted]. *)
-From Coq Require Import ZArith List Bool.
-From NV Require Import Base.Result Base.Bytes Model.IsoDep Proofs.IsoDep Proofs.IsoDepSync Proofs.IsoDepLegacy Proofs.IsoDepApdu Proofs.IsoDepStream.
+From Coq Require Import ZArith QArith List Bool.
+From NV Require Import Base.Result Base.Bytes Model.IsoDep Model.TagAct Gen.IsoDepK Proofs.IsoDep Proofs.IsoDepSync Proofs.IsoDepLegacy
+  Proofs.IsoDepApdu Proofs.IsoDepStream Bridge.IsoDep.
 Import ListNotations.
 Open Scope Z_scope.
 
@@ -148,6 +149,82 @@ Theorem C12_after_failed_exchange_refuted :
    map (fun o => execs (o_card o)) after_failure_stale = [[[255; 1; 0; 5]]; [[255; 1; 0; 5]]]).
 Proof. exact (conj after_failed_exchange_duplicate after_failed_exchange_stale). Qed.
 Print Assumptions C12_after_failed_exchange_refuted.
+
+(* ---- tie: the kernels regenerated from src/nfc/tag/tt4.py on this run (Gen/IsoDepK.v) are the model ---- *)
+(* Type4ATag.__init__, whole body, for EVERY answer to select: ProtocolError or (RATS command, fsc, fwt) *)
+Theorem C12_bridge_t4a_init : forall ms mr ats,
+  gen_t4a_init ms mr ats =
+  match ats_fsci_fwi ats with
+  | Ok (fsci, fwi) => let p := t4_params fsci fwi ms mr in Some (rats_cmd mr, a_fsc p, fwt_q (a_fwti p))
+  | _ => None
+  end.
+Proof. exact bridge_t4a_init. Qed.
+Print Assumptions C12_bridge_t4a_init.
+Theorem C12_bridge_t4a_params_wellformed : forall ms mr tl t0 ta tb rest p,
+  Z.land t0 32 <> 0 -> Z.land t0 16 <> 0 -> t4a_params (tl :: t0 :: ta :: tb :: rest) ms mr = Ok p ->
+  gen_t4a_init ms mr (tl :: t0 :: ta :: tb :: rest) = Some (rats_cmd mr, a_fsc p, fwt_q (a_fwti p)).
+Proof. exact bridge_t4a_params_wellformed. Qed.
+Print Assumptions C12_bridge_t4a_params_wellformed.
+(* Type4BTag.__init__, whole body *)
+Theorem C12_bridge_t4b_init : forall ms mr sensb attrib,
+  gen_t4b_init ms mr sensb attrib =
+  if len sensb <? 12 then None
+  else let p := t4_params (Z.shiftr (nth 10 sensb 0) 4) (Z.shiftr (nth 11 sensb 0) 4) ms mr in
+       Some (attrib_cmd sensb mr, a_fsc p, fwt_q (a_fwti p)).
+Proof. exact bridge_t4b_init. Qed.
+Print Assumptions C12_bridge_t4b_init.
+(* IsoDepInitiator.__init__: miu = fsc - 3 and min(int(1/fwt), 5) (exact rationals) are the model's a_miu / a_retry *)
+Theorem C12_bridge_t4_dep : forall fsci fwi ms mr,
+  let p := t4_params fsci fwi ms mr in
+  gen_dep_miu (a_fsc p) = a_miu p /\ gen_n_retry_ack (fwt_q (a_fwti p)) = a_retry p /\
+  gen_n_retry_nak (gen_n_retry_ack (fwt_q (a_fwti p))) = a_retry p.
+Proof. exact bridge_t4_dep. Qed.
+Print Assumptions C12_bridge_t4_dep.
+Theorem C12_bridge_errno :
+  gen_TIMEOUT_ERROR = E_TIMEOUT /\ gen_RECEIVE_ERROR = E_RECEIVE /\ gen_PROTOCOL_ERROR = E_PROTOCOL /\
+  gen_send_errno_timeout = E_TIMEOUT /\ gen_send_errno_txerr = E_RECEIVE /\ gen_send_errno_proto = E_PROTOCOL /\
+  gen_recv_errno_timeout = E_TIMEOUT /\ gen_recv_errno_txerr = E_RECEIVE /\ gen_recv_errno_proto = E_PROTOCOL.
+Proof. exact bridge_errno. Qed.
+Print Assumptions C12_bridge_errno.
+(* the PCB constructions and bit tests of exchange() are the model's predicates *)
+Theorem C12_bridge_blocks : forall k cmd pn off,
+  gen_more cmd off (miu k) = more_at k cmd off /\ gen_pfb (gen_more cmd off (miu k)) pn = [pfb_at k cmd pn off] /\
+  gen_send_data (gen_pfb (gen_more cmd off (miu k)) pn) cmd off (miu k) = iblock k cmd pn off /\
+  gen_retransmit_data (gen_pfb (gen_more cmd off (miu k)) pn) cmd off (miu k) = iblock k cmd pn off /\
+  gen_presence_nak pn = [Z.lor 178 pn] /\ gen_send_rnak_txerr pn = [Z.lor 178 pn] /\ gen_send_rnak_timeout pn = [Z.lor 178 pn] /\
+  gen_rack pn = [Z.lor 162 pn] /\ gen_recv_rack_txerr pn = [Z.lor 162 pn] /\ gen_recv_rack_timeout pn = [Z.lor 162 pn] /\
+  gen_toggle_ack pn = toggle pn /\ gen_toggle_inf pn = toggle pn /\ gen_toggle_recv pn = toggle pn.
+Proof.
+  intros. split; [apply bridge_more|]. split; [apply bridge_pfb|].
+  split; [apply bridge_iblock|]. split; [apply bridge_iblock|].
+  pose proof (bridge_rblocks pn). pose proof (bridge_toggle pn). tauto.
+Qed.
+Print Assumptions C12_bridge_blocks.
+Theorem C12_bridge_tests : forall b0 inf pn i n,
+  gen_send_is_wtx (b0 :: inf) = is_wtx b0 /\ gen_recv_is_wtx (b0 :: inf) = is_wtx b0 /\
+  gen_retransmit (b0 :: inf) pn i n = (is_rack_other pn b0 && (i <=? n + 1)) /\
+  gen_send_bad_bn (b0 :: inf) pn = negb (Z.land b0 1 =? pn) /\ gen_recv_bad_bn (b0 :: inf) pn = negb (Z.land b0 1 =? pn) /\
+  gen_is_ack (b0 :: inf) = (Z.land b0 254 =? 162) /\ gen_is_inf (b0 :: inf) = (Z.land b0 238 =? 2) /\
+  gen_chaining (b0 :: inf) = negb (Z.land b0 16 =? 0) /\
+  gen_send_empty (b0 :: inf) = false /\ gen_recv_empty (b0 :: inf) = false /\
+  gen_send_empty [] = true /\ gen_recv_empty [] = true.
+Proof. exact bridge_tests. Qed.
+Print Assumptions C12_bridge_tests.
+(* ... and, composed along the control skeleton the generator matched statement by statement, they ARE the
+   model's transition function (all three repairs in; the one difference to the committed code is an S(WTX)
+   block without WTXM byte: IndexError in the model, PROTOCOL_ERROR since fixes/c08-03 - see Model/TagReadAnyB.v) *)
+Theorem C12_bridge_pcd_start : forall k cmd pn, 0 < miu k -> 0 < len cmd ->
+  pcd_start k cmd pn = mkp pn (PSend 0 1 (gen_send_data (gen_pfb (gen_more cmd 0 (miu k)) pn) cmd 0 (miu k))).
+Proof. exact bridge_pcd_start. Qed.
+Print Assumptions C12_bridge_pcd_start.
+Theorem C12_bridge_absorb_send : forall k cmd, fix_wtx_try k = true -> fix_rack k = true ->
+  forall pn off i d0 a, pcd_absorb k cmd (mkp pn (PSend off i d0)) a = k_absorb_send k cmd pn off i a.
+Proof. exact bridge_absorb_send. Qed.
+Print Assumptions C12_bridge_absorb_send.
+Theorem C12_bridge_absorb_recv : forall k cmd, fix_wtx_chain k = true ->
+  forall pn i d0 rsp a, pcd_absorb k cmd (mkp pn (PRecv i d0 rsp)) a = k_absorb_recv k pn i rsp a.
+Proof. exact bridge_absorb_recv. Qed.
+Print Assumptions C12_bridge_absorb_recv.
 
 (* non-vacuity: a 20-byte command and 20-byte response over FSC 16 (chaining both ways), two S(WTX),
    four faulty rounds, budget 3 - meets every hypothesis above and completes *)
